@@ -10,6 +10,9 @@ var checks = map[string]func(*Ctx){
 	"C02":    runC02,
 	"C12":    runC12,
 	"C13":    runC13,
+	"C16":    runC16,
+	"C03":    runC03,
+	"C18":    runC18,
 	"corpus": runCorpus,
 	"gen":    runGen,
 }
